@@ -1,2 +1,31 @@
-(* C20 - statements only (proofs pending). *)
+(* C20 - rendering helpers of src/progress_fancy.rs: statements only; proofs in Proofs/Render*.v *)
 From N2 Require Import Model.All.
+From N2 Require Import Proofs.RenderTrunc Proofs.RenderBar Proofs.RenderMsg.
+
+Theorem C20_truncate_safe : forall s max, (length (truncate s max) <= max)%nat /\ (exists t, s = truncate s max ++ t) /\ is_char_boundary s (length (truncate s max)) = true.
+Proof. exact truncate_safe. Qed.
+Print Assumptions C20_truncate_safe.
+
+Theorem C20_truncate_utf8 : forall s max, utf8_ok s = true -> utf8_ok (truncate s max) = true.
+Proof. exact truncate_utf8. Qed.
+Print Assumptions C20_truncate_utf8.
+
+Theorem C20_truncate_fits : forall s max, (length s <= max)%nat -> truncate s max = s.
+Proof. exact truncate_fits. Qed.
+Print Assumptions C20_truncate_fits.
+
+Theorem C20_bar_width : forall c n, length (progress_bar c n) = N.to_nat n.
+Proof. exact progress_bar_width. Qed.
+Print Assumptions C20_bar_width.
+
+Theorem C20_task_message : forall m secs cols, exists r, task_message m secs cols = Ok r /\ (length r <= cols)%nat /\ (utf8_ok m = true -> utf8_ok r = true).
+Proof. exact task_message_ok. Qed.
+Print Assumptions C20_task_message.
+
+Theorem C20_task_message_fits : forall m secs cols, (length m + length (time_note secs) < cols)%nat -> task_message m secs cols = Ok (m ++ time_note secs).
+Proof. exact task_message_fits. Qed.
+Print Assumptions C20_task_message_fits.
+
+Theorem C20_task_message_pinned_refuted : (exists m secs cols, (10 <= cols)%nat /\ utf8_ok m = true /\ (secs <= 1000000)%N /\ task_message_pinned m secs cols = Panic 30%N) /\ (exists m secs cols, (10 <= cols)%nat /\ utf8_ok m = true /\ (secs <= 1000000)%N /\ task_message_pinned m secs cols = Panic 31%N).
+Proof. exact task_message_pinned_refuted. Qed.
+Print Assumptions C20_task_message_pinned_refuted.
